@@ -17,7 +17,10 @@ def make_case(seed: int, index: int, big=False, ambiguous=False, depth=2, pad=No
     desc = g.envelope(pad_manifest_to=pad)
     files = dict(g.files)
 
+    children = []
+
     def create_fn(sub, fs):
+        children.append(sub)
         if "@encinfo" in sub:
             from suit_generator.suit.manifest import SuitEncryptionInfo
             return SuitEncryptionInfo.from_obj(sub["@encinfo"]).to_cbor()
@@ -27,7 +30,11 @@ def make_case(seed: int, index: int, big=False, ambiguous=False, depth=2, pad=No
         return bytes.fromhex(r["ok"])
 
     desc = resolve(desc, create_fn, files)
+    LAST_CHILDREN[:] = children
     return desc, files, sorted(g.features)
+
+
+LAST_CHILDREN = []   # descriptions of the children / encryption infos materialised as files by the last make_case
 
 
 class ChildFailed(Exception):
